@@ -171,6 +171,7 @@ package combinator
 //@   assert_at call:HandleResult#2 [handler-input;C01,C04] len(lastarg[[]parsley.Node](3)) == depth && forall k int :: 0 <= k && k < depth ==> same(lastarg[[]parsley.Node](3)[k], s.nodes[k])
 //@   ghost_at call:Parse#1 GhostElemCp(s, depth) = lastres[data.IntSet](1)
 //@   ensures  [cp-mono;C01] cpMono(s) && elemCpKept(s, depth)
+//@   ensures  [cp-merged;C01] merge && lookupOf(s.parserLookUp, depth) != nil ==> cpMerged(s, depth)
 //@   ghost_at call:parseNext#1 GhostTried(s, depth) = GhostTried(s, depth) + 1
 //@   ghost_at call:parseNext#2 GhostTried(s, depth) = GhostTried(s, depth) + 1
 //@   ensures  [tried-kept;C01,C03] triedKept(s, depth)
@@ -245,6 +246,7 @@ package combinator
 //@   ensures  [L-failure;C06] n == nil && parsley.GhostBest >= 0 ==> err != nil && err.Pos() >= parsley.GhostBest
 //@   ensures  [L-success;C06] n != nil && parsley.GhostBest >= 0 ==> ctx.Error() != nil && ctx.Error().Pos() >= parsley.GhostBest
 //@   ensures  [cp] data.Inv(cp)
+//@   ensures  [cp-first;C01] lookupOf(s.parserLookUp, 0) != nil ==> forall x int :: data.Member(data.ElemsOf(GhostElemCp(s, 0)), x) ==> data.Member(data.ElemsOf(cp), x)
 //@   ensures  [one] n != nil ==> err == nil
 //@   assigns  GhostElemCp, GhostTried
 //@   assigns  s.curtailingParsers, s.result, s.err, s.nodes, cells(s.nodes)
